@@ -41,6 +41,32 @@ theorem exec_knots_valid (e : Float → ℝ) (m lo hi : Float) (u : List ℝ) (h
   have := SplineExec.rqKnots_valid e lo hi (flooredSoftmax (realX e) m u) hne hv.1 hv.2 hlt hd
   simpa [hlen] using this
 
+/-- **Linear spline cdf knots, on the executable code**: `pdf = softmax(u)`, `cdf = 0 :: setLast (cumsum pdf) 1` — for
+    every non-empty unnormalised vector the executed knots start at 0, end at 1 and strictly increase (so every bin has
+    positive mass and the piecewise-linear cdf is strictly increasing). -/
+theorem exec_linear_cdf_valid (e : Float → ℝ) (u : List ℝ) (hu : u ≠ []) :
+    let kn := (0 : ℝ) :: setLast (cumsumG (realX e) (softmaxG (realX e) u)) 1
+    kn.length = u.length + 1 ∧ kn.head? = some 0 ∧ kn.getLast? = some 1 ∧ kn.Pairwise (· < ·) := by
+  have hne : softmaxG (realX e) u ≠ [] := by
+    intro h; have := SplineExec.softmaxG_length e u; rw [h] at this
+    exact hu (List.length_eq_zero_iff.mp this.symm)
+  have := SplineExec.unitKnots_valid e (softmaxG (realX e) u) hne (SplineExec.softmaxG_pos e u) (SplineExec.softmaxG_sum e u hu)
+  simpa [SplineExec.softmaxG_length] using this
+
+/-- **Quadratic / cubic spline location knots, on the executable code**: `widths = flooredSoftmax`, `locs = 0 :: setLast
+    (cumsum widths) 1` are valid for every unnormalised vector when `0 ≤ m`, `m·K ≤ 1`. -/
+theorem exec_unit_locs_valid (e : Float → ℝ) (m : Float) (u : List ℝ) (hu : u ≠ [])
+    (hm0 : 0 ≤ e m) (hc : e (1 - m * u.length.toFloat) = 1 - e m * u.length) (hmK : e m * u.length ≤ 1) :
+    let kn := (0 : ℝ) :: setLast (cumsumG (realX e) (flooredSoftmax (realX e) m u)) 1
+    kn.length = u.length + 1 ∧ kn.head? = some 0 ∧ kn.getLast? = some 1 ∧ kn.Pairwise (· < ·) := by
+  have hv := SplineExec.flooredSoftmax_valid e m u hu hm0 hc hmK
+  have hne : flooredSoftmax (realX e) m u ≠ [] := by
+    intro h; have := hv.2; rw [h] at this; simp at this
+  have hlen : (flooredSoftmax (realX e) m u).length = u.length := by
+    simp [SplineExec.flooredSoftmax_eq, SplineExec.softmaxG_length]
+  have := SplineExec.unitKnots_valid e (flooredSoftmax (realX e) m u) hne hv.1 hv.2
+  simpa [hlen] using this
+
 /-- executed softmax: positive entries summing to one, for every non-empty input -/
 theorem exec_softmax_valid (e : Float → ℝ) (u : List ℝ) (hu : u ≠ []) :
     (∀ y ∈ softmaxG (realX e) u, 0 < y) ∧ (softmaxG (realX e) u).sum = 1 :=
